@@ -2122,7 +2122,8 @@ class EntityDef:
         # Make it look pretty: BaseClass
         file.write(f'@{self.type.value.title().replace("class", "Class")} ')
         if self.bases:
-            file.write('base(')
+            # aliasof() is an extension, the standard syntax can only express it as a base.
+            file.write('aliasof(' if self.is_alias and custom_syntax else 'base(')
             file.write(', '.join([
                 (base.classname if isinstance(base, EntityDef) else base)
                 for base in self.bases
